@@ -25,7 +25,29 @@ func (e *Env) stmtText(s ast.Stmt) string {
 
 // anchored runs the ghost clauses anchored before/after statement s.
 func (e *Env) anchored(s ast.Stmt, before bool) {
-	if e.fc == nil || e.inline > 0 {
+	if e.inline > 0 {
+		if len(e.inlFc) == 0 || e.inlFc[len(e.inlFc)-1] == nil {
+			return
+		}
+		if _, ok := s.(*ast.LabeledStmt); ok {
+			return
+		}
+		ic := e.inlFc[len(e.inlFc)-1]
+		text := e.stmtText(s)
+		occ := ic.anchors[text]
+		if before {
+			occ++
+			ic.anchors[text] = occ
+		}
+		for _, cl := range ic.fc.Clauses {
+			if cl.Kind != "ghost" || cl.Anchor == "" || cl.Before != before || cl.Anchor != text || (cl.Occ != 0 && cl.Occ != occ) {
+				continue
+			}
+			e.ghostClause(cl)
+		}
+		return
+	}
+	if e.fc == nil {
 		return
 	}
 	if _, ok := s.(*ast.LabeledStmt); ok {
@@ -129,6 +151,16 @@ func (e *Env) ghostAssign(c *specCtx, target *SExpr, v Value) {
 // are the current values of parameters (under their contract names) and locals.
 func (e *Env) bodyCtx() *specCtx {
 	names := map[string]Value{}
+	if e.inline > 0 && len(e.inlFc) > 0 && e.inlFc[len(e.inlFc)-1] != nil {
+		ic := e.inlFc[len(e.inlFc)-1]
+		for i, n := range ic.fc.Params {
+			if i < len(ic.paramObjs) && n != "_" && ic.paramObjs[i] != nil {
+				o := ic.paramObjs[i]
+				names[n] = e.readVar(e.localName(o), o.Type())
+			}
+		}
+		return &specCtx{e: e, names: names, bound: map[string]*Term{}, oldMap: e.entryOld, classOf: e.ownClass}
+	}
 	if e.fc != nil {
 		for i, n := range e.fc.Params {
 			if i < len(e.paramObjs) && n != "_" {
@@ -395,6 +427,7 @@ func (e *Env) storeTo(l ast.Expr, v Value) {
 		m := e.mem()
 		oldA := e.tmp(Select(m, b.Ref))
 		newA := e.tmp(Store(oldA, Add(b.Off, i.T), v.T))
+		e.noteMemWrite(b.Ref)
 		e.assign("Mem", SMem, Store(m, b.Ref, newA))
 		e.noteUpdate(oldA, newA, Add(b.Off, i.T), True)
 	case *ast.StarExpr:
@@ -583,18 +616,12 @@ func (e *Env) loop(pos token.Pos, cond func() *Term, body func(), post func(), a
 	}
 	// back edge is cut here
 	loopAssigned := e.assigned
-	var frameMaps []string
-	frameMem := false
-	if e.frameAuto != nil {
-		frameMaps = heapMapsOf(loopAssigned)
-		frameMem = loopAssigned["Mem"]
-		if ft := e.frameAuto(frameMem, frameMaps); ft != nil {
-			e.assertFrame(ft, lname+".preserve", "automatic frame invariant: only what the modifies clause allows is written", e.w.pos(pos))
-			sc := e.cur
-			e.cur = pre
-			e.assertFrame(e.frameAuto(frameMem, frameMaps), lname+".entry", "automatic frame invariant: only what the modifies clause allows is written", e.w.pos(pos))
-			e.cur = sc
-		}
+	if e.frOn && loopAssigned["$fok"] {
+		e.assertFrame(lname+".preserve", "automatic frame invariant: only what the modifies clause allows is written", e.w.pos(pos))
+		sc := e.cur
+		e.cur = pre
+		e.assertFrame(lname+".entry", "automatic frame invariant: only what the modifies clause allows is written", e.w.pos(pos))
+		e.cur = sc
 	}
 	e.assigned = savedAssigned
 	for k := range loopAssigned {
@@ -661,10 +688,8 @@ func (e *Env) loop(pos token.Pos, cond func() *Term, body func(), post func(), a
 			e.assume(t)
 		}
 	}
-	if e.frameAuto != nil {
-		if ft := e.frameAuto(frameMem, frameMaps); ft != nil {
-			e.assume(Implies(e.frameFlag(), ft))
-		}
+	if e.frOn && loopAssigned["$fok"] {
+		e.assume(Var("$fok", SBool))
 	}
 	e.cur = saveCur
 	_ = saveCur
